@@ -22,7 +22,7 @@ RULE = ('polynomial programs R^N -> R^M (N,M <= 5) recorded at x_r with operand 
 ASSUMPTIONS = ['exact Fraction arithmetic for polynomial programs', 'forward-mode drivers are validated independently by C09',
                'drivers that reject a shape by an explicit ValueError are counted as unsupported (vec_hess_vec needs w.shape == x.shape)']
 DRIVERS = ['gradient', 'jacobian', 'hessian', 'jac_vec', 'vec_jac', 'hess_vec', 'vec_hess', 'vec_hess_vec', 'jacobian_utpm']
-REQUIRED = ['poly:' + d for d in DRIVERS] + ['prog:' + d for d in DRIVERS if d != 'jacobian_utpm']
+REQUIRED = ['poly:' + d for d in DRIVERS] + ['prog:' + d for d in DRIVERS if d != 'jacobian_utpm'] + ['prog:gradient-list']
 RECS = ['float', 'int', 'utpm11', 'utpm32']
 
 
@@ -39,7 +39,66 @@ def cases(tier, seed):
             out.append({'kind': 'prog', 'seed': case_seed('C04', seed, name, rep), 'params': {'prog': name, 'rec': RECS[(rep + len(name)) % 4]}})
     for i in range(60 if tier == 'quick' else 20000):
         out.append({'kind': 'prog', 'seed': case_seed('C04', seed, 'comp', i), 'params': {'prog': 'comp', 'rec': RECS[i % 4]}})
+    for pr in progs.cat():
+        if len(pr.ins) >= 2 and not ({'refused', 'nopb', 'fancy', 'nonunique'} & pr.tags) and pr.name not in ('dot:TM', 'dot:MT'):
+            for rep in range(1 if tier == 'quick' else 10):
+                out.append({'kind': 'gradlist', 'seed': case_seed('C04', seed, 'gradlist', pr.name, rep), 'params': {'prog': pr.name, 'rec': RECS[(rep + len(pr.name)) % 4]}})
     return out
+
+
+def _gradlist(ctx, p, rng):
+    """gradient with a list of arrays (one per independent, any shape) of a program with several inputs, away from the
+    recording point; reference: forward mode with one direction per input element"""
+    pr = progs.by_name(p['prog'])
+    base = pr.base_inputs(rng)
+    if p['rec'] == 'int':
+        p = dict(p, rec='float')
+    try:
+        yshape = np.shape(pr.f(*[np.array(b, dtype=float) for b in base]))
+    except Exception:
+        ctx.skip('forward-unsupported:' + pr.name); return
+    W = np.round(rng.uniform(0.5, 1.5, size=yshape), 2)
+    fs = lambda *a: algopy.sum(pr.f(*a) * W)
+    try:
+        cg, _ = progs.record(fs, [_rec_operand(p['rec'], b, rng) for b in base])
+    except Exception:
+        ctx.skip('not-traceable:%s:%s' % (pr.name, p['rec'])); return
+    for ip in range(2):
+        xs = [np.array(b, dtype=float) for b in (base if ip == 0 else pr.base_inputs(rng))]
+        if not pr.in_domain(xs):
+            ctx.skip('out_of_domain:regularity-condition'); continue
+        # forward reference: all partial derivatives at once, one direction per element of every input
+        n = [int(np.prod(x.shape, dtype=int)) for x in xs]; Pn = sum(n)
+        zs = []; off = 0
+        for x, k in zip(xs, n):
+            d = np.zeros((2, Pn) + x.shape); d[0] = x
+            for j in range(k):
+                d[1].reshape(Pn, -1)[off + j, j] = 1.0
+            off += k; zs.append(UTPM(d))
+        try:
+            ref = fs(*zs).data[1]
+        except Exception:
+            ctx.skip('forward-drivers-unsupported:' + pr.name); return
+        if not np.all(np.isfinite(ref)) or np.max(np.abs(ref)) > 1e6:
+            ctx.skip('out_of_domain:ill-conditioned'); continue
+        try:
+            got = cg.gradient([x.copy() for x in xs])
+        except Exception as e:
+            ctx.violation('prog:gradient-list:%s:raises' % pr.name, {'program': pr.name, 'rec': p['rec'], 'error': repr(e)[:200]}); return
+        sc = np.max(np.abs(ref)) + 1e-5
+        off = 0; bad = None
+        if not isinstance(got, list) or len(got) != len(xs):
+            ctx.violation('prog:gradient-list:%s:result-structure' % pr.name, {'program': pr.name, 'got': type(got).__name__}); return
+        for i_, (g, x, k) in enumerate(zip(got, xs, n)):
+            g = np.asarray(g)
+            if g.shape != x.shape:
+                bad = ('shape', i_, g.shape, x.shape); break
+            if k and not np.max(np.abs(g.reshape(-1) - ref[off:off + k])) <= 1e-9 * sc:
+                bad = ('value', i_, float(np.max(np.abs(g.reshape(-1) - ref[off:off + k])) / sc)); break
+            off += k
+        if bad:
+            ctx.violation('prog:gradient-list:%s:%s' % (pr.name, bad[0]), {'program': pr.name, 'rec': p['rec'], 'where': 'at-recording-point' if ip == 0 else 'away', 'input': bad[1], 'detail': repr(bad[2:])}); return
+        ctx.ok('prog:gradient-list', ('gradlist', pr.name, p['rec'], ip))
 
 
 def _rec_operand(kind, x, rng):
@@ -69,6 +128,8 @@ def run_case(ctx, case):
     rng = gen.rng_of(case)
     if case['kind'] == 'poly':
         return _poly(ctx, case['params'], rng)
+    if case['kind'] == 'gradlist':
+        return _gradlist(ctx, case['params'], rng)
     return _prog(ctx, case['params'], rng)
 
 
